@@ -331,7 +331,15 @@ def case_uparea_geographic(ctx, ds, shape, order, nontriv):
     span = nrow * abs(yres)
     north = float(rng.randint(-75, int(75 - span))) if yres > 0 else float(rng.randint(int(-75 + span), 75))
     tr = Affine(xres, 0.0, float(rng.randint(-170, 160)), 0.0, yres, north)
-    flw = mk_raster(ds, shape, transform=tr, latlon=True)
+    if rng.random() < 0.4:
+        # the same object first used as a projected grid, then switched to geographic by changing ONLY the
+        # latlon flag: areas must be those of the geographic grid (no stale cell areas)
+        flw = mk_raster(ds, shape, transform=tr, latlon=False)
+        flw.upstream_area("km2")
+        flw.set_transform(tr, latlon=True)
+        ctx.count("uparea-geographic-after-latlon-switch")
+    else:
+        flw = mk_raster(ds, shape, transform=tr, latlon=True)
     if order == "sort":
         flw.order_cells("sort")
     seq = canon_idx(flw.idxs_seq, n)
